@@ -69,8 +69,12 @@ def make_value(kind, token):
             'badstr': BadStr(token), 'none': None, 'nested': {'a': {'b': {'c': [token] * 3}}}, 'set': {token}}[kind]
 
 
-NAMES_SECRET = ['secret', 'secret_key', 'api_secret', 'my_secret_token', 'xsecretx', 'db_secret_', 'secrets', 'client-secret', 'a.secret.b']
-NAMES_PLAIN = ['db', 'config', 'name', 'iterable', 'start', 'api_key_id', 'motd', 'k', 'res<zq9m>', 'sec_ret', 'secre', 'ecret']
+NAMES_SECRET = ['secret', 'secret_key', 'api_secret', 'my_secret_token', 'xsecretx', 'db_secret_', 'secrets', 'client-secret', 'a.secret.b',
+                # long names: 'secret' at the very end, far inside, straddling any plausible display width
+                'payment_gateway_webhook_signing_shared_secret', 'n' * 60 + '_secret', 'a_very_long_resource_name_whose_secr' + 'et_part_straddles',
+                'x' * 34 + 'secret' + 'y' * 30, 'secret' + 'z' * 80]
+NAMES_PLAIN = ['db', 'config', 'name', 'iterable', 'start', 'api_key_id', 'motd', 'k', 'res<zq9m>', 'sec_ret', 'secre', 'ecret',
+               'a_long_plain_resource_name_that_is_wider_than_any_column_' + 'w' * 30]
 VALUE_KINDS = ['str', 'bytes', 'int', 'list', 'dict', 'tuple', 'reprobj', 'long', 'markup', 'nested', 'set', 'badstr', 'none', 'float']
 ENDPOINTS = ['func', 'lambda', 'method', 'callable', 'static', 'classm', 'decorated', 'builtin', 'uses-resource', 'doc',
              'defaults', 'defaults-kwonly', 'defaults-mixed']
@@ -356,7 +360,7 @@ def body(case, ctx):
 
 
 def shards(tier, seed):
-    n = 25 if tier == 'quick' else 3000
+    n = 60 if tier == 'quick' else 3000
     return [{'n': n} for _ in range(16)]
 
 
